@@ -35,7 +35,12 @@ func init() {
 			unit := genUnitsC02(w.Tier)[u]
 			st := newC02State()
 			var cur []byte
-			w.InFlight(func() string { return unit.Name + " " + hexShort(cur) })
+			w.InFlight(func() string {
+				if len(cur) <= 1<<16 {
+					return unit.Name + " " + hex.EncodeToString(cur) // replayable (a stall is confirmed by replaying it)
+				}
+				return unit.Name + " " + hexShort(cur)
+			})
 			unit.Each(func(b []byte) bool {
 				cur = b
 				if w.Journaling() {
@@ -46,6 +51,20 @@ func init() {
 			})
 		},
 		Replay: func(w *mc.W, data json.RawMessage) error {
+			var sr struct {
+				Kind     string `json:"kind"`
+				InFlight string `json:"in_flight"`
+			}
+			if json.Unmarshal(data, &sr) == nil && sr.Kind == "stall" {
+				// "unit hex": run the input again; if it hangs again the driver's replay timeout confirms it
+				if i := strings.LastIndexByte(sr.InFlight, ' '); i >= 0 {
+					if b, err := hex.DecodeString(sr.InFlight[i+1:]); err == nil {
+						c02Check(w, newC02State(), b, sr.InFlight[:i])
+						return nil
+					}
+				}
+				return fmt.Errorf("stall case without a replayable input: %.80s", sr.InFlight)
+			}
 			var cr struct{ Kind, Case string }
 			if json.Unmarshal(data, &cr) == nil && cr.Kind == "crash" {
 				b, _ := hex.DecodeString(cr.Case)
